@@ -100,6 +100,8 @@ type CoverSpec struct {
 }
 
 type SpecFile struct {
+	Immutable []string
+	ImmProps  []string
 	Covers    []*CoverSpec
 	Pkg       string
 	Contracts []*Contract
@@ -364,6 +366,11 @@ func parseSpecFile(path, pkg string) (*SpecFile, error) {
 			}
 			cur.FuncName = strings.TrimSpace(name)
 			sf.Contracts = append(sf.Contracts, cur)
+		case "immutable":
+			// immutable [props] v1 v2 ... : package-level variables assigned only by the initialiser
+			props, rest := parseProps(p.text)
+			sf.ImmProps = append(sf.ImmProps, props...)
+			sf.Immutable = append(sf.Immutable, strings.Fields(rest)...)
 		case "covers":
 			// covers <func> <Type> [except f1 f2 ...]
 			fs := strings.Fields(p.text)
